@@ -38,12 +38,36 @@ RULE = (
     "different ID widths, data field lengths 65536..65535+N and 2^k through constructor and setter. A case counts as "
     "distinct non-trivial when no other sweep produces the same header (measured with a per-shard set; across shards the "
     "only overlaps are sweep values equal to a background value, which job (a) already produced - those are executed but "
-    "not counted as distinct)."
+    "not counted as distinct). In (a)-(c) the decoder is handed bytes with a tail, bytes ending with the header and a "
+    "bytearray that is overwritten after the call; in (b) and (c) every swept value is also assigned through the public setter "
+    "(pdu_data_field_len=, set_entity_ids, transaction_seq_num=) to one long-lived header per shard whose octets and lengths "
+    "must follow. (f) histories: every sequence of 0..D actions over a 43-letter alphabet - "
+    "5 observers (header_len, packet_len, pack()+header_len_from_raw, pdu_conf.header_len(), all field getters), the "
+    "header's mutators (set_entity_ids with each of the 4 widths, transaction_seq_num= with each width, pdu_data_field_len= "
+    "with 2 values, each of the 7 flag attributes flipped, the refused arguments: 4 mixed-width ID pairs and length 65536), "
+    "and writes through objects the header hands out (pdu_conf IDs / sequence number with each width, 5 pdu_conf flags, "
+    ".value of the three field objects) - from a constructed and from a decoded header in 4 backgrounds; each history is "
+    "executed on a fresh object, every observer action and a full observation at the end are compared with the reference "
+    "encoding of the model's current values (a state = a node of the history tree: it is distinct by construction and "
+    "differs from its siblings in the values held and in which observers have been read); every pack() result of a history "
+    "must still be what it was at the end. (g) independence: for each of the 2048 flag x width combinations A and each of "
+    "its 19 neighbours B (identical, one field changed: 7 flags, 3+3 widths, length, 3 ID values; all fields changed): build / "
+    "pack / decode A and hold the 5 results, build / pack / decode B and drive every mutator of B's objects, re-observe A's "
+    "results; in (a)-(d) the results of every case are re-observed after the next case of the enumeration."
 )
-BOUNDS = {"quick": "K=2 (width-2 ID sweeps K=1), N=4096", "thorough": "K=4 (width-2 ID sweeps K=2), N=65536"}
+BOUNDS = {"quick": "K=2 (width-2 ID sweeps K=1), N=4096, history depth D=3 (8 start states x 81 400 histories)",
+          "thorough": "K=4 (width-2 ID sweeps K=2), N=65536, history depth D=4 (8 start states x 3 500 201 histories)"}
 ASSUMPTIONS = [
     "reference encoder ref/cfdp.py transcribes CCSDS 727.0-B-5 5.1 (bound to the repository's expected byte vectors by selftest/st_ref_cfdp.py)",
     "two arbitrary non-background ID values in two different fields at once are only covered by the backgrounds",
+    "the property is read as a statement about the header's current values however they were assigned (constructor, decoder, "
+    "public setters in any order, reads in between); histories longer than D actions are not explored",
+    "a refused setter call (mixed ID widths, length > 65535) leaves the header's values as they were",
+    "a write through header.pdu_conf or a handed-out field object may or may not reach the header (design decision outside "
+    "the property): afterwards each reported field must be the old or the new value and lengths / octets must agree with the "
+    "reported fields",
+    "the independence oracle re-observes a result after the NEXT case(s) only (and after each of the 19 neighbour headers in "
+    "job g); a leak that needs more intervening calls is not seen",
 ]
 
 FLAGS = list(itertools.product((0, 1), repeat=7))  # ptype, dir, mode, crc, large, segctrl, segmeta
@@ -154,6 +178,41 @@ def evaluate_header(u, recipe, via="class", encode_side=True):
         if what != "-exact-buffer":
             sink.append(("PduHeader.unpack", d, obs_header))
     return None
+
+
+def setter_path(rec, hs, recipe, how):
+    """the same values assigned to ONE long-lived header through its public setters (how: 'dlen' | 'src' | 'seq' | 'dst'):
+    the octets, header_len and packet_len must be those of the recipe - a sweep-long history of one setter"""
+    cfg, p = recipe["cfg"], recipe["params"]  # recipe_of() fills in every key, nothing to normalise
+    ref = R.encode_header(cfg, p)
+    src, seq, dst = R.cfg_ids(cfg)
+    gen = U.L.ByteFieldGenerator.from_int
+    rec.ops += 3
+    subject = {"dlen": "pdu_data_field_len", "seq": "transaction_seq_num"}.get(how, "set_entity_ids")
+    try:
+        if how == "dlen":
+            hs.pdu_data_field_len = p["dlen"]
+        elif how == "seq":
+            hs.transaction_seq_num = gen(cfg["seqw"], seq)
+        else:
+            hs.set_entity_ids(gen(cfg["idw"], src), gen(cfg["idw"], dst))
+        got = (bytes(hs.pack()), int(hs.header_len), int(hs.packet_len))
+    except Exception as e:  # noqa: BLE001
+        got = repr(e)
+    exp = (ref, len(ref), len(ref) + p["dlen"])
+    if got != exp:
+        rec.violation(f"C05.encode/PduHeader.{subject}/octets-or-lengths-after-setter-on-a-long-lived-header",
+                      {"kind": "setter", "how": how, "first": recipe_first(recipe, how), "recipe": recipe}, got, exp)
+
+
+def recipe_first(recipe, how):
+    """the recipe the long-lived header of a setter sweep is constructed from: the swept field at its simplest value"""
+    r = {"cfg": dict(recipe["cfg"]), "params": dict(recipe["params"])}
+    if how == "dlen":
+        r["params"]["dlen"] = 0
+    else:
+        r["cfg"][how] = 0
+    return r
 
 
 KEEP = 4  # results handed out per header case (constructed header, its pack() result, two decoded headers)
@@ -457,16 +516,22 @@ def backdoor(h, m, name, rec):
     old = model_fields(m)
     for i, key in enumerate(FIELD_TO_KEY):
         if got[i] != old[i] and got[i] != new.get(key, old[i]):
-            raise Stop(f"C05.history/PduHeader.fields/neither-old-nor-new/after={family(name)}", got, old)
+            raise Stop("C05.history/PduHeader.fields/neither-old-nor-new-after-write-through-handed-out-object", got, old)
     if got[8] != got[12]:
-        raise Stop(f"C05.history/PduHeader.fields/id-widths-differ/after={family(name)}", got, old)
+        raise Stop("C05.history/PduHeader.fields/id-widths-differ-after-write-through-handed-out-object", got, old)
     for i, key in enumerate(FIELD_TO_KEY):
         m[key] = got[i]
 
 
-def start_object(start, rc, ref):
+def start_object(start, m, ref):
     if start == "ctor":
-        return unit.build(rc)
+        L = U.L
+        conf = L.PduConfig(source_entity_id=L.ByteFieldGenerator.from_int(m["idw"], m["src"]),
+                           dest_entity_id=L.ByteFieldGenerator.from_int(m["idw"], m["dst"]),
+                           transaction_seq_num=L.ByteFieldGenerator.from_int(m["seqw"], m["seq"]),
+                           trans_mode=L.TransmissionMode(m["mode"]), file_flag=L.LargeFileFlag(m["large"]), crc_flag=L.CrcFlag(m["crc"]),
+                           seg_ctrl=L.SegmentationControl(m["segctrl"]), direction=L.Direction(m["dir"]))
+        return L.PduHeader(L.PduType(m["ptype"]), L.SegmentMetadataFlag(m["segmeta"]), m["dlen"], conf)
     if start == "unpack":
         return U.L.PduHeader.unpack(ref + TAIL)
     raise AssertionError(start)
@@ -480,12 +545,12 @@ def run_history(rec, start, bg, hist, rc, m0, ref0):
     last = "none"
     step = None
     try:
-        h = start_object(start, rc, ref0)
+        h = start_object(start, m0, ref0)
         for step in tuple(hist) + tuple(OBSERVERS[2:]) + tuple(OBSERVERS[:2]):  # the history, then one full observation
             if step in OBSERVERS:
                 bad = observe_action(h, m, step, held)
                 if bad is not None:
-                    raise Stop(f"C05.history/PduHeader.{step}/disagrees-with-reference/after={last}", bad[0], bad[1])
+                    raise Stop(f"C05.history/PduHeader.{step}/disagrees-with-reference", bad[0], bad[1])
             elif step.startswith(("pdu_conf.", "source_entity_id.", "transaction_seq_num.value", "dest_entity_id.")):
                 backdoor(h, m, step, rec)
                 last = family(step)
@@ -497,7 +562,7 @@ def run_history(rec, start, bg, hist, rc, m0, ref0):
                 raise Stop("C05.independence/PduHeader.pack/result-changed-by-a-later-call", bytes(res), snap)
     except Stop as s:
         sig, got, exp = s.args
-        rec.violation(sig, case, got, exp, note=f"history-dependent: first disagreement at action {step!r}; model={m}")
+        rec.violation(sig, case, got, exp, note=f"first disagreement at action {step!r}, last mutator before it: {last}; model={m}")
     except AssertionError:
         raise
     except Exception as e:  # noqa: BLE001 - the library raised where the reference tree does not
@@ -557,6 +622,13 @@ def exercise(recipe):
         _ = (o.header_len, o.packet_len)
         for attr, key, enum in FLAG_SETTERS:
             setattr(o, attr, getattr(U.L, enum)(1 - r.get(key, 0)))
+        for attr in ("source_entity_id", "transaction_seq_num", "dest_entity_id"):
+            f = getattr(o, attr)
+            try:
+                f.value = int(f.value) ^ 0x55  # B's own field objects: may or may not reach B, must never reach A
+            except Exception:  # noqa: BLE001 - a library with read-only field objects is not wrong
+                pass
+        _ = o.pack()
         w, s = _next_width(r["idw"]), _next_width(_next_width(r["seqw"]))
         o.set_entity_ids(gen(w, _idval(0x21, w)), gen(w, _idval(0xB1, w)))
         o.transaction_seq_num = gen(s, _idval(0x81, s))
@@ -582,15 +654,28 @@ def neighbours(fl, idw, seqw):
     return out
 
 
-def alias_case(rec, ra, rb):
-    """hold everything the library hands out for header A, use the library on header B, re-observe A's results"""
-    case = {"kind": "alias", "a": ra, "b": rb}
+_COMBOS = []
+
+
+def alias_combos():
+    if not _COMBOS:
+        _COMBOS.extend((fl, idw, seqw) for fl in FLAGS for idw in WIDTHS for seqw in WIDTHS)
+    return _COMBOS
+
+
+def alias_case(rec, ai, bi):
+    """hold everything the library hands out for header A (combination number ai), use the library on header B (neighbour
+    number bi of A), re-observe A's results.  The case is self-contained: it replays alone."""
+    fl, idw, seqw = alias_combos()[ai]
+    ra = recipe_of(fl, idw, seqw, 0x1234)
+    name, rb = neighbours(fl, idw, seqw)[bi]
+    case = {"kind": "alias", "a": ai, "b": bi}
     rec.case(True, ops=30)
     keeper = Keeper(rec, PROPERTY, depth=8)
     for subject, obj, observe in produce(ra):
         keeper.hold(subject, obj, observe, case)
     exercise(rb)
-    keeper.recheck(case)
+    keeper.recheck({"held": ra, "library_then_used_on": rb, "differs_in": name})
     keeper.flush()
 
 
@@ -631,16 +716,15 @@ def run_shard(item):
                                 "actions": [ACTIONS[item["first"]], ACTIONS[-1], ACTIONS[0]][:item["depth"]]}}, limit=1)
         return rec.result()
     if job == "alias":
-        combos = [(fl, idw, seqw) for fl in FLAGS for idw in WIDTHS for seqw in WIDTHS]
-        combos = combos[len(combos) * item["part"] // item["parts"]: len(combos) * (item["part"] + 1) // item["parts"]]
+        combos = alias_combos()
+        lo, hi = len(combos) * item["part"] // item["parts"], len(combos) * (item["part"] + 1) // item["parts"]
         n = 0
-        for fl, idw, seqw in combos:
-            ra = recipe_of(fl, idw, seqw, 0x1234)
-            for _, rb in neighbours(fl, idw, seqw):
-                alias_case(rec, ra, rb)
+        for ai in range(lo, hi):
+            for bi in range(len(neighbours(*combos[ai]))):
+                alias_case(rec, ai, bi)
                 n += 1
         rec.count("independence_pairs", n)
-        rec.sample({"independence_pair": {"held": recipe_of(*combos[0], 0x1234), "then_used_on": neighbours(*combos[0])[-1][1]}}, limit=1)
+        rec.sample({"independence_pair": {"held": recipe_of(*combos[lo], 0x1234), "library_then_used_on": neighbours(*combos[lo])[-1][1]}}, limit=1)
     elif job == "flags":
         flags = FLAGS[len(FLAGS) * item["part"] // item["parts"]: len(FLAGS) * (item["part"] + 1) // item["parts"]]
         for fl in flags:
@@ -657,8 +741,12 @@ def run_shard(item):
         fl, idw, seqw, _, src, seq, dst = background(item["bg"])
         lo, hi = 65536 * item["part"] // item["parts"], 65536 * (item["part"] + 1) // item["parts"]
         edge16 = set(D.edge(16))
+        hs = unit.build(recipe_first(recipe_of(fl, idw, seqw, lo, src, seq, dst), "dlen"))
         for dlen in range(lo, hi):
-            header_case(rec, seen, recipe_of(fl, idw, seqw, dlen, src, seq, dst), dup=dlen in edge16, keeper=keeper)
+            rc = recipe_of(fl, idw, seqw, dlen, src, seq, dst)
+            header_case(rec, seen, rc, dup=dlen in edge16, keeper=keeper)
+            setter_path(rec, hs, rc, "dlen")
+        rec.count("setter_path_assignments", hi - lo)
         rec.count("data_field_length_values_swept", hi - lo)
         r = recipe_of(fl, idw, seqw, lo + 0x0102, src, seq, dst)
         rec.sample({"recipe": r, "expected_octets": unit.ref(r)}, limit=1)
@@ -671,10 +759,16 @@ def run_shard(item):
         others = {"src": id_background(item["bg"], idw), "seq": id_background(item["bg"], seqw), "dst": id_background(item["bg"] + 1, idw) if item["bg"] else None}
         std = dict(zip(("src", "seq", "dst"), R.cfg_ids({"idw": idw, "seqw": seqw})))
         bgval = others[field] if others[field] is not None else std[field]
+        hs = None
         for v in vals:
             ids = dict(others)
             ids[field] = v
-            header_case(rec, seen, recipe_of(fl, idw, seqw, dlen, ids["src"], ids["seq"], ids["dst"]), dup=v == bgval, keeper=keeper)
+            rc = recipe_of(fl, idw, seqw, dlen, ids["src"], ids["seq"], ids["dst"])
+            header_case(rec, seen, rc, dup=v == bgval, keeper=keeper)
+            if hs is None:
+                hs = unit.build(recipe_first(rc, field))
+            setter_path(rec, hs, rc, field)
+        rec.count("setter_path_assignments", len(vals))
         rec.count(f"{field}_width{width}_values_swept", len(vals))
         ids = dict(others)
         ids[field] = vals[len(vals) // 2]
@@ -715,11 +809,14 @@ def replay(case):
         check_decode_pair(rec, case["o0"], case["o3"])
     elif case["kind"] == "refusal":
         check_refusal(rec, case["how"], int(case["a"]), None if case["b"] is None else int(case["b"]))
+    elif case["kind"] == "setter":
+        rec.case(True)
+        setter_path(rec, unit.build(case["first"]), case["recipe"], case["how"])
     elif case["kind"] == "history":
         rc, m0 = start_model(case["bg"])
         run_history(rec, case["start"], case["bg"], tuple(case["actions"]), rc, m0, model_ref(m0))
     elif case["kind"] == "alias":
-        alias_case(rec, case["a"], case["b"])
+        alias_case(rec, int(case["a"]), int(case["b"]))
     return rec.result()
 
 
@@ -733,6 +830,7 @@ def finalize(tier, agg):
         "refusal_cases": c.get("refusal_cases", 0),
         "history_depth": _depth(tier), "history_alphabet": ACTIONS, "history_start_states": len(HISTORY_STARTS) * 4,
         "histories_executed": c.get("histories", 0),
+        "setter_path_assignments_on_long_lived_headers": c.get("setter_path_assignments", 0),
         "independence_pairs": c.get("independence_pairs", 0),
         "independence_results_held": c.get("independence_results_held", 0),
         "independence_reobservations": c.get("independence_reobservations", 0),
